@@ -265,7 +265,7 @@ theorem ns_convertToExternal (dest : String) (verbose : Bool) (inp : List (Strin
   simp only []
   exact ns_bind (ns_mapM' (fun p => ns_materializeOne dest _ p) _) (fun ids => ns_placeAndWrite dest verbose _ ids)
 
-theorem ns_unload (names : List String) (dest : String) (verbose : Bool) : NS (unload names dest verbose) := by
+theorem ns_unload {thr : Nat} (names : List String) (dest : String) (verbose : Bool) : NS (unload thr names dest verbose) := by
   unfold unload
   refine ns_bind ns_get (fun s => ?_)
   refine ns_bind (ns_mapM' (fun i => ns_extToMem _) _) (fun memIds => ?_)
@@ -280,7 +280,7 @@ theorem ns_save (cfg : Cfg) (sig : List (String × Bool)) (tnames : List String)
   · exact ns_throw _
   · split
     · exact ns_throw _
-    have hir : NS (irSave sig tnames dir name (name ++ ".data") verbose) := by
+    have hir : NS (irSave cfg.thr sig tnames dir name (name ++ ".data") verbose) := by
       unfold irSave
       refine ns_bind ns_get (fun s0 => ?_)
       apply ns_tryFinally
